@@ -76,6 +76,10 @@ type Fn struct {
 	// pointer-typed value-group members produced by this function are nil pointers: values
 	// without identity (only their NUMBER can be observed; see the anonymous-values stream)
 	NilMembers bool `json:"nil_members"`
+	// the error result is declared as *UserErr and a successful execution returns (*UserErr)(nil): for dig
+	// a typed nil is a non-nil error, so the function "fails" whenever it runs, and also when a dry
+	// container fabricates its results (used by the dry-vs-normal comparison only; not modelled)
+	ErrTypedNil bool `json:"err_typed_nil"`
 	// Invoke calls issued from inside this function's callback after a successful execution
 	CbNested []Nested `json:"cb_nested"`
 }
@@ -195,9 +199,24 @@ type UserErr struct {
 	Inner    error
 }
 
-func (e *UserErr) Error() string { return fmt.Sprintf("user error fn=%d exec=%d", e.Fn, e.Exec) }
-func (e *UserErr) Unwrap() error { return e.Inner }
-func (e *UserErr) Code() int     { return e.Fn }
+func (e *UserErr) Error() string {
+	if e == nil {
+		return "typed nil *UserErr"
+	}
+	return fmt.Sprintf("user error fn=%d exec=%d", e.Fn, e.Exec)
+}
+func (e *UserErr) Unwrap() error {
+	if e == nil {
+		return nil
+	}
+	return e.Inner
+}
+func (e *UserErr) Code() int {
+	if e == nil {
+		return -1
+	}
+	return e.Fn
+}
 
 // CodedErr: a richer error interface some functions declare as their error result type
 type CodedErr interface {
@@ -605,7 +624,7 @@ func (r *runner) makeFunc(f *Fn, role string) reflect.Value {
 	}
 	if f.Err {
 		et := errType
-		if f.ErrConcrete && r.planAt(f, 0) == "err" {
+		if (f.ErrConcrete && r.planAt(f, 0) == "err") || f.ErrTypedNil {
 			et = reflect.TypeOf(&UserErr{})
 		} else if f.ErrIface {
 			et = codedErrType
@@ -678,7 +697,13 @@ func (r *runner) body(f *Fn, role string, args []reflect.Value) []reflect.Value 
 					ev = reflect.Zero(reflect.TypeOf(&UserErr{}))
 				}
 			}
-			if f.ErrIface && !(f.ErrConcrete && r.planAt(f, 0) == "err") {
+			if f.ErrTypedNil {
+				if plan == "err" {
+					ev = reflect.ValueOf(newUserErr(f.ID, e))
+				} else {
+					ev = reflect.Zero(reflect.TypeOf(&UserErr{}))
+				}
+			} else if f.ErrIface && !(f.ErrConcrete && r.planAt(f, 0) == "err") {
 				if plan == "err" {
 					ev = reflect.ValueOf(newUserErr(f.ID, e)).Convert(codedErrType)
 				} else {
@@ -750,6 +775,9 @@ func rootOf(rc error) *Root {
 		return &Root{K: "foreign"}
 	}
 	if u, ok := rc.(*UserErr); ok {
+		if u == nil {
+			return &Root{K: "user", F: -1, E: -1} // a typed nil *UserErr (err_typed_nil)
+		}
 		ue = u
 		return &Root{K: "user", F: ue.Fn, E: ue.Exec}
 	}
